@@ -75,6 +75,13 @@ class Rng:
                         if gi is not None and gi[0] in ("param", "kwargs"):
                             info = ("kwargs", f.kwarg, gi[1] if gi[0] == "param" else gi[2])
         if info is None and f.parent is not None:
+            # a helper nested in a seeded function whose captured generator was made an explicit parameter
+            # (lambda lifting): that parameter is its seed
+            lifted = [v for v in getattr(f.node, "_lifted", ()) if v in self.tracked_names(f.parent) and v in f.all_params]
+            if lifted and self.seed_info(f.parent) is not None:
+                pref = [v for v in lifted if v not in SEED_NAMES] or lifted
+                info = ("param", pref[0])
+        if info is None and f.parent is not None:
             pi = self.seed_info(f.parent)
             if pi is not None and pi[0] == "param":
                 # closure over the enclosing seed parameter (if never re-bound there)
